@@ -16,6 +16,14 @@ def run(c):
     c.mc("RingBuf", "RingBufMC.%s.cfg" % c.tier, timeout=3000)
     if c.replay:
         trace = c.replay
+        first = open(trace).readline()
+        if '"batch"' in first:      # a pktRing trace slice
+            pr = c.validate("PktRingTrace", "PktRingTrace.cfg", trace)
+            c.judge_trace(pr, trace)
+            c.cov["traces_validated_against_impl"] += 1
+            c.cov["evaluations"] += pr.nlines
+            c.sample_trace(trace)
+            return
     else:
         trace = c.scratch + "/ring.ndjson"
         n = 3000 if c.thorough else 400
@@ -39,6 +47,21 @@ def run(c):
                      "judged by TLC; a trace is non-trivial if some caller blocked or a batch was "
                      "truncated; distinct = distinct (event, caller, len, ret) sequences")
     c.sample_trace(trace, nevents=14)
+    # the gateway's pktRing (batching single-reader view) on top of the same ring
+    if not c.replay:
+        pdrv = c.build("pktring")
+        ptrace = c.scratch + "/pktring.ndjson"
+        c.run_driver(pdrv, ["-n", 400 if c.thorough else 60, "-out", ptrace])
+        pr = c.validate("PktRingTrace", "PktRingTrace.cfg", ptrace)
+        c.judge_trace(pr, ptrace)
+        pn = 0
+        for t in vlib.split_traces(ptrace):
+            pn += 1
+            c.cov["evaluations"] += len(t) - 1
+            if any(e["ev"] in ("waitw", "waitr") for e in t) or any(e["ev"] == "rread" and e["hret"] > 1 for e in t):
+                shapes.add("p" + str([(e["ev"], e.get("hret"), e.get("ret")) for e in t][:400]))
+        c.cov["traces_validated_against_impl"] += pn
+        c.cov["distinct_nontrivial"] = len(shapes)
     c.assumptions += ["hook events are emitted under the ring mutex (exact linearization order)",
                       "goroutine scheduling is sampled, not enumerated, on the implementation side; "
                       "all interleavings are enumerated only in the TLA+ model"]
